@@ -103,6 +103,7 @@ m("C16","flatcoords-aliased","derived.gen.go","	dst.layout = src.layout\n	dst.st
 m("C17","normalize-inputs-in-place","xy/lineintersector/robust_line_intersector.go","	copy(line1End1Norm, line1Start)\n	copy(line1End2Norm, line1End)\n	copy(line2End1Norm, line2Start)\n	copy(line2End2Norm, line2End)\n\n	normPt := geom.Coord{0, 0}\n	normalizeToEnvCentre(line1End1Norm, line1End2Norm, line2End1Norm, line2End2Norm, normPt)","	copy(line1End1Norm, line1Start)\n	copy(line1End2Norm, line1End)\n	copy(line2End1Norm, line2Start)\n	copy(line2End2Norm, line2End)\n\n	normPt := geom.Coord{0, 0}\n	normalizeToEnvCentre(line1Start, line1End, line2Start, line2End, normPt)","args-not-written/xy/lineintersector.LineIntersectsLine")
 m("C17","bounds-memoised-global","flat.go","// Bounds returns the bounds of g.\nfunc (g *geom0) Bounds() *Bounds {\n	return NewBounds","var lastBounds *Bounds\n\n// Bounds returns the bounds of g.\nfunc (g *geom0) Bounds() *Bounds {\n	lastBounds = nil\n	return NewBounds","globals-immutable/github.com/twpayne/go-geom.lastBounds")
 m("C17","revert-marshal-nil-fresh","encoding/geojson/geojson.go","		// A fresh copy: the result belongs to the caller, who may modify it.\n		return append([]byte(nil), nullGeometry...), nil","		return nullGeometry, nil","results-not-package-memory/encoding/geojson.Marshal")
+m("C17","nonrobust-snaps-input-in-place","xy/lineintersector/nonrobust_line_intersector.go","	// double denom, offset, num;     /* Intermediate values */\n\n	data.isProper = false","	// double denom, offset, num;     /* Intermediate values */\n\n	if line1Start[0] == -0.0 {\n		line1Start[0] = 0 // normalise a negative zero\n	}\n	data.isProper = false","args-not-written/xy/lineintersector.LineIntersectsLine")
 m("C17","goroutine-in-library","xy/radial_comparator.go","// NewRadialSorting","func init() { go func() {}() }\n\n// NewRadialSorting","no-hidden-concurrency/xy")
 # ---- C18
 m("C18","trim-when-d-ge-0","encoding/wkt/encode.go","		if e.maxDecimalDigits > 0 {","		if e.maxDecimalDigits >= 0 {","wkt-digits/(*encoding/wkt.Encoder).writeCoord/trim")
